@@ -329,6 +329,19 @@ def r113_model_registration(ctx):
     r = [x for x in walk_shallow(get) if isinstance(x, ast.Return)]
     ok = len(stores) == 1 and unparse(stores[0].targets[0].slice) == k and unparse(stores[0].value) == s and len(r) == 1 \
         and unparse(r[0].value) in (f'self.{stores[0].targets[0].value.attr}[{gk}]', f'self.{stores[0].targets[0].value.attr}.get({gk})')
+    # the registry is per model instance: created in __init__, not a class-level (shared) dict
+    if stores:
+        F = stores[0].targets[0].value.attr
+        init = prog.method('DSOLModel', '__init__', inherited=False)
+        fresh = any(isinstance(x, (ast.Assign, ast.AnnAssign)) and any(is_self_attr(t, F) for t in (x.targets if isinstance(x, ast.Assign) else [x.target]))
+                    and isinstance(x.value, (ast.Dict, ast.Call)) for x in walk_shallow(init))
+        shared = F in ci.assigns
+        okp = fresh and not shared
+        ctx.ob('R11.3', 'DSOLModel:registry-per-instance', okp, sample=f'DSOLModel.{F}: fresh dict per instance in __init__ {fresh}; class-level attribute {shared}')
+        if not okp:
+            ctx.finding('R11.3', f'DSOLModel.{F}:shared', ci, ci.assigns.get(F) or init,
+                        f'the statistics registry {F} is not a fresh dict per model instance (class-level: {shared}): two models in one process share it, and initialising one '
+                        f'wipes or replaces what the other returns under a key', where='DSOLModel')
     ctx.ob('R11.3', 'DSOLModel:add/get', ok, sample=f'add: {short(stores[0]) if stores else "?"}; get: {short(r[0].value) if r else "?"}')
     if not ok:
         ctx.finding('R11.3', 'DSOLModel.get_output_statistic', ci, get, 'get_output_statistic(key) does not return the object stored by add_output_statistic(key, statistic)',
@@ -420,3 +433,42 @@ def r115_published_values(ctx):
             ctx.finding('R11.5', f'{c}._fire_events~{b}', prog.cls(c), prog.classes[c].methods['_fire_events'],
                         f'{c} and its event-based sibling {b} publish different sequences (differences: {diff[:3]})', where=f'{c}._fire_events')
     ctx.exhaustive['R11.5 all published rows'] = True
+
+
+def coercion_before_write(ctx, rule, classes):
+    """an observation that cannot be converted to float (an int beyond float range) makes the first float operation raise
+    OverflowError; that operation must come before the first write, else the refused observation has already changed the statistic"""
+    prog = ctx.prog
+    ctx.rule(rule, 'the first float conversion of every numeric observation parameter (math.isnan(x), float(x), x -/+/* float) dominates every write in register()')
+    n = 0
+    for c in classes:
+        ci = prog.cls(c)
+        fn = ci.methods.get('register')
+        if fn is None:
+            continue
+        g = CFG(fn)
+        params = [a.arg for a in fn.args.args[1:]]
+        writes = [nd for nd in g.stmt_nodes() if nd.ast is not None and any(is_self_attr(x) and isinstance(x.ctx, (ast.Store, ast.Del)) for x in walk_shallow(nd.ast))]
+        for p in params:
+            coer = []
+            for nd in g.stmt_nodes():
+                if nd.ast is None:
+                    continue
+                for x in walk_shallow(nd.ast):
+                    if isinstance(x, ast.Call) and unparse(x.func) in ('math.isnan', 'math.isinf', 'math.isfinite', 'float', 'math.sqrt', 'math.floor') \
+                            and x.args and isinstance(x.args[0], ast.Name) and x.args[0].id == p:
+                        coer.append(nd)
+                    elif isinstance(x, ast.BinOp) and isinstance(x.op, (ast.Add, ast.Sub, ast.Mult, ast.Div)) \
+                            and any(isinstance(o, ast.Name) and o.id == p for o in (x.left, x.right)):
+                        coer.append(nd)
+            if not coer:
+                continue
+            n += 1
+            late = [w for w in writes if not any(g.dominates(cn, w) and cn is not w for cn in coer)]
+            ok = not late
+            ctx.ob(rule, f'{c}.register:{p}', ok, sample=f'{c}.register: `{p}` is converted to float before the first write: {ok}')
+            if not ok:
+                ctx.finding(rule, f'{c}.register:{p}:write-before-float-conversion', ci, late[0].ast,
+                            f'`{short(late[0].ast, 60)}` is executed before `{p}` has been through any float operation: an int observation beyond float range '
+                            f'(10**400) passes the type and NaN checks and raises OverflowError only later, after the statistic has been changed', where=f'{c}.register')
+    ctx.floor(rule, 'numeric observation parameters', n, 1)
